@@ -116,6 +116,8 @@ def conclude(pid, spec, results, tier, seed, wall, kani=(), extra_viol=()):
                 undecided.append('unit %s/%s: verifier front-end error (unsupported construct or tool failure): %s'
                                  % (r.unit, r.mode, str(r.frontend_error)[:300]))
             continue
+        for u_ in getattr(r, 'unstable', []) or []:
+            undecided.append('unit %s/%s: proof of %s fails under one solver seed and succeeds under another (unstable proof, no verdict)' % (r.unit, r.mode, u_))
         if r.resource_out:
             for d in r.resource_out:
                 undecided.append('unit %s/%s: resource limit in %s' % (r.unit, r.mode, d.fn))
